@@ -260,7 +260,7 @@ fn cart_class(a: f64, b: f64) -> &'static str {
 pub fn check_cart<H: HueOps>(c: &mut Collector, a: H::T, b: H::T, l: &mut Loc) {
     let (a64, b64) = (a.to64(), b.to64());
     let radius = a64.hypot(b64);
-    let cls = format!("{}/r~{:e}", cart_class(a64, b64), 10f64.powf(radius.log10().round()));
+    let cls = cart_class(a64, b64);
     let mk = |check: &str, obs: Value, exp: Value| json!({"sub": "cart", "hue": H::HUE, "ty": <H::T as Fl>::NAME, "input": [hx(a), hx(b)], "values": [a64, b64], "check": check, "observed": obs, "expected": exp});
     let r = pv::catch(|| {
         let h = H::from_cart(a, b);
